@@ -1486,7 +1486,17 @@ func (in *Interp) builtin(fr *frame, b *ssa.Builtin, args []Value, site ssa.Inst
 		m, _ := args[0].(*Map)
 		if m != nil {
 			if !m.Delete(args[1]) {
-				in.unsupported("delete with symbolic key")
+				var keyT types.Type = types.Typ[types.Int64]
+				if _, isStr := args[1].(Str); isStr {
+					keyT = types.Typ[types.String]
+				} else if _, isT := args[1].(*Term); !isT {
+					if _, isI := args[1].(Int); !isI {
+						in.unsupported("delete with symbolic key")
+					}
+				}
+				if !in.mapDeleteSym(m, args[1], keyT) {
+					in.unsupported("delete with symbolic key")
+				}
 			}
 		}
 		return nil
@@ -1721,3 +1731,64 @@ func (in *Interp) runPending(fr *frame) {
 }
 
 var _ = utf8.RuneError
+
+// mapSetSym: m[k] = v where k (or some key already in m) is symbolic.  Key
+// identity is decided entry by entry with the solver (one fork per entry that
+// may equal k); a key equal to none of the entries is appended.
+func (in *Interp) mapSetSym(m *Map, k, v Value, keyT types.Type) bool {
+	if !(isString(keyT) || isInteger(keyT)) {
+		return false
+	}
+	i, found := in.mapFindSym(m, k, keyT)
+	if found {
+		m.vals[i] = v
+		return true
+	}
+	if hk, ok := hashKey(k); ok {
+		m.index[hk] = len(m.keys)
+	} else {
+		m.hasSym = true
+	}
+	m.keys = append(m.keys, k)
+	m.vals = append(m.vals, v)
+	m.live = append(m.live, true)
+	return true
+}
+
+func (in *Interp) mapFindSym(m *Map, k Value, keyT types.Type) (int, bool) {
+	for i := range m.keys {
+		if !m.live[i] {
+			continue
+		}
+		var c Value
+		if isString(keyT) {
+			c = in.strEq(m.keys[i].(Str), k.(Str))
+		} else {
+			c = in.eqVal(m.keys[i], k)
+		}
+		if b, ok := c.(bool); ok {
+			if b {
+				return i, true
+			}
+			continue
+		}
+		if in.branch(c, "map key identity") {
+			return i, true
+		}
+	}
+	return -1, false
+}
+
+// mapDeleteSym: delete(m, k) with symbolic key identity.
+func (in *Interp) mapDeleteSym(m *Map, k Value, keyT types.Type) bool {
+	if !(isString(keyT) || isInteger(keyT)) {
+		return false
+	}
+	if i, found := in.mapFindSym(m, k, keyT); found {
+		m.live[i] = false
+		if hk, ok := hashKey(m.keys[i]); ok {
+			delete(m.index, hk)
+		}
+	}
+	return true
+}
